@@ -69,7 +69,7 @@ def main(tier, only=None):
         e1.run_set(chk, "c10/cond.c", hs, workers=8)
     if want("search"):
         hs = [
-            e1.H("h_search_order", "search/order", unwind=30, timeout=300),
+            e1.H("h_search_order", "search/order", unwind=30, timeout=300, object_bits=10),
             e1.H("h_search_cache", "search/cache-include-next", unwind=30, timeout=300),
             e1.H("h_include_dquote", "search/include-dquote", unwind=30, timeout=300, defines=("HK_inc",),
                  replace_calls=("include_file:stub_include_file", "expand_macro:stub_expand_macro")),
